@@ -236,6 +236,8 @@ def parse_script(lines):
             ops.append(dict(op="send", c=int(p[1]), eof=p[2] == "1", b=unhx(p[3])))
         elif p[0] == "des":
             ops.append(dict(op="des", pw=unhx(p[1]), blk=unhx(p[2])))
+        elif p[0] == "tight" and len(p) == 2:
+            ops.append(dict(op="tight", on=p[1] == "1"))
         elif p[0] == "types" and len(p) == 5:
             ops.append(dict(op="types", tys=[int(x) for x in p[1:5]]))
         elif p[0] == "setfile" and len(p) == 3:
@@ -300,6 +302,7 @@ def oracle_case(lines, impl_lines):
     screens, conns = [], []          # conns: dict(s, rev, sent=[(opidx, bytes)], obs=[(opidx, conn-obs)])
     ext_reg_times = {}               # k -> list of (opidx, registered?)
     EXT_TYPES = dict(DEFAULT_EXT_TYPES)   # security types of the application handler objects of this case
+    tight_mode = any(o["op"] == "tight" and o["on"] for o in ops)   # object 2 = the library's TightVNC handler
     it = iter(impl_lines)
     crashed_at = None
     for idx, o in enumerate(ops):
@@ -469,6 +472,43 @@ def oracle_case(lines, impl_lines):
             if final["ext"]:
                 continue                      # an application handler took the client: outside the property
             ext_same = ext_type_registered_ever(t, d["choice_op"])
+            tight_reg = tight_mode and [r for i, r in ext_reg_times.get(2, []) if i < d["choice_op"]][-1:] == [True]
+            if t == 16 and tight_reg and t in offered:
+                # the library's TightVNC security type: tunnelling caps (none), authentication caps
+                # (VNC authentication iff this client must prove the password), 4-byte choice
+                if ss[sp:sp + 4] != b"\0\0\0\0":
+                    if not refused():
+                        add("tight-bad-caps", "no empty tunnelling-capability list after type 16: %s" % ss[sp:sp + 4].hex(), kind="tight")
+                    continue
+                sp += 4
+                want_n = 1 if protected else 0
+                if ss[sp:sp + 4] != want_n.to_bytes(4, "big"):
+                    add("tight-bad-caps", "authentication-capability count %s, the screen requires %d" % (ss[sp:sp + 4].hex(), want_n), kind="tight")
+                    continue
+                sp += 4
+                if want_n:
+                    if ss[sp:sp + 16] != (2).to_bytes(4, "big") + b"STDV" + b"VNCAUTH_":
+                        add("tight-bad-caps", "authentication capability is %s" % ss[sp:sp + 16].hex(), kind="tight")
+                        continue
+                    sp += 16
+                    # the server reads the choice (and then the response) with blocking reads inside the
+                    # handler: they must arrive in the same write as the type byte
+                    if len(cs) < cp + 4 or sent_op(cp + 3) != d["choice_op"]:
+                        continue
+                    auth = int.from_bytes(cs[cp:cp + 4], "big")
+                    cp += 4
+                    d["tight_auth"] = auth
+                    if auth != 2:
+                        if not refused():
+                            add("tight-unoffered-authtype-accepted",
+                                "TightVNC authentication type %d was not in the capability list [2] sent, and was not refused" % auth,
+                                kind="tight", auth=auth)
+                        continue
+                    if len(cs) >= cp + 16 and sent_op(cp + 15) != d["choice_op"]:
+                        continue          # response too late: the blocking read has timed out
+                    t = 2
+                else:
+                    t = 1
             if t not in (1, 2):
                 if not refused():
                     add("unknown-type-accepted", "chose type %d (no such handler) and was not refused" % t, chosen=t)
@@ -488,6 +528,8 @@ def oracle_case(lines, impl_lines):
             if len(ss) < sp + 16:
                 add("no-challenge", "no challenge after VNC authentication was selected")
                 continue
+            if d.get("tight_auth") == 2 and len(cs) < cp + 16:
+                continue                  # TightVNC path: the blocking read of the response timed out
             chal = ss[sp:sp + 16]
             sp += 16
             d["chal"] = chal
@@ -530,17 +572,17 @@ def oracle_case(lines, impl_lines):
                         (ss[sp:].hex(), final["st"], want.hex()))
                 continue
         else:
-            if minor >= 7 and minor > 7 and minor != 889:
+            if minor > 7 and (minor != 889 or d["chosen"] == 16):
                 if ss[sp:sp + 4] != b"\0\0\0\0":
                     add("bad-none-result", "no SecurityResult OK after type None for 3.%d: %s" % (minor, ss[sp:sp + 4].hex()))
                     continue
                 sp += 4
         # initialisation: ClientInit (implicit for the 3.889 client after type None) => ServerInit
-        implicit = (t == 1 and minor == 889)
+        implicit = (t == 1 and minor == 889 and d["chosen"] != 16)
         if len(cs) > cp or implicit:
             if ss[sp:sp + len(sinit)] != sinit:
                 add("no-server-init", "ClientInit answered with %s instead of ServerInit" % (ss[sp:sp + 40].hex() or "nothing"))
-            elif len(ss) != sp + len(sinit) and len(cs) <= cp + (0 if implicit else 1):
+            elif len(ss) != sp + len(sinit) and len(cs) <= cp + (0 if implicit else 1) and d["chosen"] != 16:
                 add("trailing-output", "unexpected bytes after ServerInit: %s" % ss[sp + len(sinit):].hex())
     # global soundness net (independent of the walk above)
     for d in info:
@@ -1039,6 +1081,60 @@ def gen_fvo_sweep(rng, k0):
     return cases
 
 
+def gen_tight(rng, k, weak_pool):
+    """the application registered the TightVNC file-transfer extension (security type 16, object 2 is
+    the library's own handler): nested negotiation tunnelling caps / authentication caps / choice /
+    challenge / response, all client bytes in one write (the handler reads them with blocking reads)"""
+    L = ["case %d tight" % k, "tight 1"]
+    kind = rng.choice(["list", "list", "file", "none"])
+    pw = rng.choice(NORMAL_PWS + weak_pool[:3])
+    if kind == "list":
+        pws = [pw] + [rng.choice(NORMAL_PWS) for _ in range(rng.randint(0, 2))]
+        rng.shuffle(pws)
+        L.append("screen 4 3 7470 list %d %s" % (rng.choice([0, 1, 5]) if rng.random() < 0.3 else 9, " ".join(hx(p) for p in pws)))
+    elif kind == "file":
+        L.append("screen 4 3 7466 file %s" % hx(passwd_file_content(pw[:8])))
+    else:
+        L.append("screen 4 3 746f none")
+    other = rng.random() < 0.4
+    if other:
+        L.append("screen 2 2 6f none" if kind != "none" else "screen 2 2 70 list 1 %s" % hx(rng.choice(NORMAL_PWS)))
+    if rng.random() < 0.3:
+        L.append("reg %d" % rng.randint(3, 5))
+    L.append("reg 2")
+    if rng.random() < 0.15:
+        L += ["unreg 2", "reg 2"]
+    rev = rng.random() < 0.15
+    ver = rng.choice([b"RFB 003.008\n"] * 3 + [b"RFB 003.007\n"] * 2 + [b"RFB 003.889\n"])
+    L.append("conn 0 %d 0 %s" % (1 if rev else 0, hx(ver)))
+    ci = 0
+    if other and rng.random() < 0.6:
+        L.append("conn 1 0 0 %s" % hx(rng.choice([b"RFB 003.008\n", b"RFB 003.007\n"])))
+    protected = kind != "none" and not rev
+    ch = bytes(rng.randrange(256) for _ in range(16))
+    auth = rng.choice([2, 2, 2, 2, 1, 1, 0, 5, 16, 0x01000000, 0x02000000, 0xffffffff]) if protected else None
+    msg = b"\x10"
+    if protected:
+        msg += auth.to_bytes(4, "big")
+        if auth == 2:
+            L.append("rand " + hx(ch))
+        r = rng.random()
+        good = vnc_encrypt(pw.split(b"\0")[0], ch)
+        resp = good if r < 0.5 else (ch if r < 0.65 else (b"\0" * 16 if r < 0.75 else (
+            bytes([good[0] ^ 1]) + good[1:] if r < 0.9 else b"")))
+        split = rng.random() < 0.12
+        if split:
+            L.append("send %d 0 %s" % (ci, hx(msg)))
+            if resp:
+                L.append("send %d 0 %s" % (ci, hx(resp)))
+        else:
+            L.append("send %d 0 %s" % (ci, hx(msg + resp)))
+    else:
+        L.append("send %d 0 %s" % (ci, hx(msg + (b"\0\0\0\1" if rng.random() < 0.2 else b""))))
+    L.append("send %d 0 %s" % (ci, hx(bytes([rng.choice([1, 1, 0])]))))
+    return L
+
+
 def gen_des(rng, k, weak_pool):
     L = ["case %d des" % k]
     for _ in range(6):
@@ -1115,6 +1211,8 @@ def gen_cases(ctx):
         cases.append(gen_des(rng, len(cases), weak_pool))
     for _ in range(150 * scale):
         cases.append(gen_filechange(rng, len(cases), weak_pool))
+    for _ in range(200 * scale):
+        cases.append(gen_tight(rng, len(cases), weak_pool))
     cases += gen_fvo_sweep(rng, len(cases))
     cases = [c for c in cases if script_ok(c)]
     for i, c in enumerate(cases):
@@ -1188,6 +1286,41 @@ def run_model(ctx, cases, mexe, legacy=False):
     return vlib.run_driver(exe, script, timeout=3000, unlimited_stack=True)
 
 
+TIGHT_CAPS_LEN = 8 + 16 * (4 + 6 + 12)      # rfbSendInteractionCaps: header + server / client / encoding capabilities
+
+
+def strip_interaction_caps(lines, impl_lines):
+    """TightVNC clients are sent the interaction capabilities right after ServerInit (rfbTightExtensionInit).
+    That traffic follows the admission and is not part of C05 (and for a view-only client part of it is
+    uninitialised stack memory, see notes/C05.md): cut it from the implementation's observations."""
+    if not any(l.startswith("tight 1") for l in lines):
+        return impl_lines
+    screens, conn_screen = [], []
+    for o in parse_script(lines):
+        if o["op"] == "screen":
+            screens.append(server_init(o["scr"]))
+        elif o["op"] == "conn":
+            conn_screen.append(o["s"])
+    out = []
+    for l in impl_lines:
+        if not l.startswith("o "):
+            out.append(l)
+            continue
+        parts = l.split(" | ")
+        for i in range(1, len(parts)):
+            f = parts[i].split(",")
+            ci = i - 1
+            if ci < len(conn_screen) and conn_screen[ci] < len(screens) and f[3] != "-":
+                b = unhx(f[3])
+                si = screens[conn_screen[ci]]
+                k = b.find(si)
+                if k >= 0 and len(b) == k + len(si) + TIGHT_CAPS_LEN and b[k + len(si):k + len(si) + 8] == bytes([0, 4, 0, 6, 0, 12, 0, 0]):
+                    f[3] = hx(b[:k + len(si)])
+                    parts[i] = ",".join(f)
+        out.append(" | ".join(parts))
+    return out
+
+
 def case_class(c):
     p = c[0].split()
     k = p[2] if len(p) > 2 else "?"
@@ -1216,7 +1349,7 @@ def check(ctx):
     mismatches, failing = [], []
     unmodelled = 0
     for idx, c in enumerate(cases):
-        il = cc[idx][1] if idx < len(cc) else []
+        il = strip_interaction_caps(c, cc[idx][1] if idx < len(cc) else [])
         ml = mc[idx][1] if idx < len(mc) else []
         d = vlib.first_diff(il, ml)
         if any(" unmod=1" in l for l in ml):
@@ -1260,7 +1393,7 @@ def check(ctx):
         r1, co, ce = run_impl(ctx, [lines], cexe)
         r2, mo, me = run_model(ctx, [lines], mexe)
         cs, ms = vlib.split_cases(co), vlib.split_cases(mo)
-        return (cs[0][1] if cs else []), (ms[0][1] if ms else []), co, mo, ce
+        return strip_interaction_caps(lines, cs[0][1] if cs else []), (ms[0][1] if ms else []), co, mo, ce
 
     def shrink(lines, pred):
         body = vlib.ddmin(lines[1:], lambda sub: script_ok([lines[0]] + sub) and pred([lines[0]] + sub), max_tests=150)
@@ -1327,7 +1460,7 @@ def replay(ctx, path):
     r2, mo, me = run_model(ctx, [lines], mexe)
     _, lo, _ = run_model(ctx, [lines], mexe, legacy=True)
     cs = vlib.split_cases(co)
-    il = cs[0][1] if cs else []
+    il = strip_interaction_caps(lines, cs[0][1] if cs else [])
     print("implementation:\n" + co + "model (baseline):\n" + mo + "model (code before the fixes):\n" + lo)
     fs = oracle_case(lines, il)
     ctx.coverage.update(evaluations=len(lines) - 1, distinct_nontrivial=0, rule="replay", samples=[lines])
@@ -1335,6 +1468,7 @@ def replay(ctx, path):
         print("oracle: %s - %s" % (f.symptom, f.text))
         ctx.violation("C05 violated on the implementation: %s - %s" % (f.symptom, f.text), f.features(),
                       "script:\n" + "\n".join(lines) + "\n\nimplementation output:\n" + co)
-    if not fs and co != mo:
+    ms = vlib.split_cases(mo)
+    if not fs and il != (ms[0][1] if ms else []):
         ctx.violation("correspondence differs on the replayed script", {"kind": "correspondence"},
                       "script:\n" + "\n".join(lines) + "\n\n" + co + "\n" + mo, no_input=True)
